@@ -347,7 +347,7 @@ impl<'a> CompiledPredicate<'a> {
 
         match op {
             UnaryOperator::Minus => match val {
-                Value::Int(n) => Some(Value::Int(-n)),
+                Value::Int(n) => n.checked_neg().map(Value::Int),
                 Value::Float(f) => Some(Value::Float(-f)),
                 _ => None,
             },
@@ -1000,23 +1000,23 @@ impl<'a> CompiledPredicate<'a> {
 
         match op {
             BinaryOperator::Plus => {
-                self.eval_arithmetic_op(left, right, |a, b| a + b, |a, b| a + b)
+                self.eval_arithmetic_op(left, right, |a, b| a.checked_add(b), |a, b| a + b)
             }
             BinaryOperator::Minus => {
-                self.eval_arithmetic_op(left, right, |a, b| a - b, |a, b| a - b)
+                self.eval_arithmetic_op(left, right, |a, b| a.checked_sub(b), |a, b| a - b)
             }
             BinaryOperator::Multiply => {
-                self.eval_arithmetic_op(left, right, |a, b| a * b, |a, b| a * b)
+                self.eval_arithmetic_op(left, right, |a, b| a.checked_mul(b), |a, b| a * b)
             }
             BinaryOperator::Divide => match (left, right) {
-                (Value::Int(a), Value::Int(b)) if *b != 0 => Some(Value::Int(a / b)),
+                (Value::Int(a), Value::Int(b)) if *b != 0 => a.checked_div(*b).map(Value::Int),
                 (Value::Int(a), Value::Float(b)) if *b != 0.0 => Some(Value::Float(*a as f64 / b)),
                 (Value::Float(a), Value::Int(b)) if *b != 0 => Some(Value::Float(a / *b as f64)),
                 (Value::Float(a), Value::Float(b)) if *b != 0.0 => Some(Value::Float(a / b)),
                 _ => None,
             },
             BinaryOperator::Modulo => match (left, right) {
-                (Value::Int(a), Value::Int(b)) if *b != 0 => Some(Value::Int(a % b)),
+                (Value::Int(a), Value::Int(b)) if *b != 0 => a.checked_rem(*b).map(Value::Int),
                 (Value::Float(a), Value::Float(b)) if *b != 0.0 => Some(Value::Float(a % b)),
                 (Value::Int(a), Value::Float(b)) if *b != 0.0 => Some(Value::Float(*a as f64 % b)),
                 (Value::Float(a), Value::Int(b)) if *b != 0 => Some(Value::Float(a % *b as f64)),
@@ -1025,7 +1025,10 @@ impl<'a> CompiledPredicate<'a> {
             BinaryOperator::Power => match (left, right) {
                 (Value::Int(a), Value::Int(b)) => {
                     if *b >= 0 {
-                        Some(Value::Int(a.pow(*b as u32)))
+                        u32::try_from(*b)
+                            .ok()
+                            .and_then(|exp| a.checked_pow(exp))
+                            .map(Value::Int)
                     } else {
                         Some(Value::Float((*a as f64).powi(*b as i32)))
                     }
@@ -1715,11 +1718,13 @@ impl<'a> CompiledPredicate<'a> {
         float_op: G,
     ) -> Option<Value<'a>>
     where
-        F: Fn(i64, i64) -> i64,
+        F: Fn(i64, i64) -> Option<i64>,
         G: Fn(f64, f64) -> f64,
     {
         match (left, right) {
-            (Value::Int(a), Value::Int(b)) => Some(Value::Int(int_op(*a, *b))),
+            // `None` (integer overflow) makes the expression NULL instead of
+            // panicking (debug) or wrapping silently (release).
+            (Value::Int(a), Value::Int(b)) => int_op(*a, *b).map(Value::Int),
             (Value::Float(a), Value::Float(b)) => Some(Value::Float(float_op(*a, *b))),
             (Value::Int(a), Value::Float(b)) => Some(Value::Float(float_op(*a as f64, *b))),
             (Value::Float(a), Value::Int(b)) => Some(Value::Float(float_op(*a, *b as f64))),
